@@ -16,14 +16,16 @@ const AS: f64 = 1024.0;
 
 type CV = ClipVert<Vec2>;
 
-fn mk_tri(t: &Value, a: &Value) -> (Tri<CV>, [[f64; 4]; 3]) {
+/// `scale` (a power of two, exact) multiplies all four homogeneous coordinates:
+/// the same projective triangle, so the same clipping in barycentric terms.
+fn mk_tri(t: &Value, a: &Value, scale: f32) -> (Tri<CV>, [[f64; 4]; 3]) {
     let mut vs = vec![];
     let mut raw = [[0f64; 4]; 3];
     for i in 0..3 {
         let c = |j: usize| t[i][j].as_i64().unwrap() as f32 / 4.0;
         raw[i] = [c(0) as f64, c(1) as f64, c(2) as f64, c(3) as f64];
         let at = vec2(a[i][0].as_i64().unwrap() as f32, a[i][1].as_i64().unwrap() as f32);
-        vs.push(ClipVert::new(vertex([c(0), c(1), c(2), c(3)].into(), at)));
+        vs.push(ClipVert::new(vertex([c(0) * scale, c(1) * scale, c(2) * scale, c(3) * scale].into(), at)));
     }
     (Tri([vs[0].clone(), vs[1].clone(), vs[2].clone()]), raw)
 }
@@ -80,7 +82,9 @@ fn clip(ts: &[Tri<CV>]) -> Option<Vec<Tri<CV>>> {
 }
 
 pub fn exec(case: &Value) -> Value {
-    let (tri, raw) = mk_tri(&case["t"], &case["a"]);
+    let scale = 2f32.powi(case.get("sc").and_then(|v| v.as_i64()).unwrap_or(0) as i32);
+    let unscale = 1.0 / scale as f64;
+    let (tri, raw) = mk_tri(&case["t"], &case["a"], scale);
     let mut e = case.clone();
     let o = e.as_object_mut().unwrap();
     let single = clip(std::slice::from_ref(&tri));
@@ -97,7 +101,7 @@ pub fn exec(case: &Value) -> Value {
         .as_array()
         .unwrap()
         .iter()
-        .map(|t| mk_tri(&t["t"], &t["a"]).0)
+        .map(|t| mk_tri(&t["t"], &t["a"], scale).0)
         .collect();
     let pos = (gi(case, "pos") as usize).min(others.len());
     let mut batch: Vec<Tri<CV>> = others.clone();
@@ -123,7 +127,7 @@ pub fn exec(case: &Value) -> Value {
                 .0
                 .iter()
                 .map(|v| {
-                    let p = v.pos.0.map(|c| c as f64);
+                    let p = v.pos.0.map(|c| c as f64 * unscale);
                     match bary(&raw, p) {
                         Some((b, res)) if b.iter().all(|x| x.abs() < 1e4) && res < 1e4 => json!([
                             (b[0] * B).round() as i64,
@@ -206,6 +210,8 @@ pub fn gen(args: &Args, out: &mut dyn Write) {
         o.insert("k".into(), json!(format!("c{}-{}", args.seed, i)));
         o.insert("others".into(), json!(others));
         o.insert("pos".into(), json!(rng.below(nb as u64 + 1)));
+        // homogeneous scale 2^sc of the whole call (tiny, ordinary and large coordinates)
+        o.insert("sc".into(), json!([0i64, 0, -30, 0, 20, -12][(i % 6) as usize]));
         writeln!(out, "{c}").unwrap();
     }
 }
